@@ -340,6 +340,7 @@ func (t *rtpDownTrack) adjustLayer() {
 	if rate < max*7/8 {
 		// switch up
 		layer := t.getLayerInfo()
+		verifhook.At("rtpconn.adjustLayer.loaded", t)
 		if layer.limitSid && layer.wantedSid != 0 {
 			layer.wantedSid = 0
 			t.setLayerInfo(layer)
@@ -353,6 +354,7 @@ func (t *rtpDownTrack) adjustLayer() {
 	} else if rate > max*3/2 {
 		// switch down
 		layer := t.getLayerInfo()
+		verifhook.At("rtpconn.adjustLayer.loaded", t)
 		if layer.tid > 0 {
 			layer.wantedTid = layer.tid - 1
 			t.setLayerInfo(layer)
